@@ -272,6 +272,12 @@ func (bs *blockState) instr(ins ssa.Instruction) {
 		e.regs[x] = Val{x.Type(), v.C}
 	case *ssa.Go:
 		bs.goInstr(x)
+	case *ssa.MakeChan:
+		e.regs[x] = Val{x.Type(), []string{e.allocRef(bs.st, bs.g, "chan")}}
+	case *ssa.Send:
+		bs.chanOp("send", []Val{bs.val(x.Chan), bs.val(x.X)}, x, nil)
+	case *ssa.Select:
+		bs.selectInstr(x)
 	default:
 		unsupp("instruction %T (%s) not in subset", ins, ins)
 	}
@@ -890,18 +896,34 @@ func isPrivateCell(a *ssa.Alloc) bool {
 }
 
 func closureWrites(fn *ssa.Function, fv *ssa.FreeVar) bool {
-	if fv.Referrers() == nil {
+	return addrWritten(fv)
+}
+
+// addrWritten: the location (or a part of it) addressed by v may be assigned through v.
+func addrWritten(v ssa.Value) bool {
+	if v.Referrers() == nil {
 		return false
 	}
-	for _, r := range *fv.Referrers() {
+	for _, r := range *v.Referrers() {
 		switch x := r.(type) {
 		case *ssa.UnOp, *ssa.DebugRef:
 		case *ssa.Store:
-			return true
+			if x.Addr == v {
+				return true
+			}
+			return true // the address itself escapes into memory
+		case *ssa.FieldAddr:
+			if addrWritten(x) {
+				return true
+			}
+		case *ssa.IndexAddr:
+			if addrWritten(x) {
+				return true
+			}
 		case *ssa.MakeClosure:
 			inner := x.Fn.(*ssa.Function)
 			for i, b := range x.Bindings {
-				if b == ssa.Value(fv) && closureWrites(inner, inner.FreeVars[i]) {
+				if b == v && addrWritten(inner.FreeVars[i]) {
 					return true
 				}
 			}
